@@ -40,5 +40,18 @@ func init() {
 	})
 }
 
+func init() {
+	register("C09", &Property{
+		Title: "Length, SplitAt and Reverse are consistent views of the same curve",
+		Explanation: "Decides the encoding clauses Length/SplitAt/Reverse/Split depend on, for every path: in every decoder loop of the package (incl. SplitAt, Reverse, Split, Length) a command cursor of one path only indexes that path's data; payload offsets stay inside the record of the command being decoded; every record built (incl. the ones Reverse emits) has the command at both ends and the format's length; cmdLen agrees with the format. NOT decided: quadrature, arc-length inversion, involution, winding negation.",
+		Run: func(c *core.Ctx, r *core.Report) {
+			E2CmdLenTable(c, r)
+			E2CursorDomain(c, r, nil)
+			E2RecordLayout(c, r)
+			E2RecordConstruction(c, r)
+		},
+	})
+}
+
 // RunMutant is the entry point of the self-validation sub-process (thorough tier).
 func RunMutant(args []string) int { return runMutant(args) }
